@@ -436,6 +436,43 @@ def project(t_old, t_new, v):
     return v
 
 
+def check_c05_c(run: common.Run, drv: common.Driver, rng: random.Random, n_chains: int, n_values: int, opts) -> None:
+    """the C runtime generated from the OLDER schema decodes bytes of the newer one"""
+    from . import creal as C
+
+    with R.Scratch() as sc:
+        for k in range(n_chains):
+            g = G.SchemaGen(rng, opts)
+            newest = g.schema()
+            old, mp, ch = devolve(newest, rng)
+            t_new, t_old = G.schema_text(newest, rng), G.schema_text(old, rng)
+            try:
+                cm = C.CModule(sc, old, t_old, f"c05o{k}_{rng.randrange(1 << 30)}")
+            except Exception as e:
+                run.violation({"kind": "compile-failed", "input": {"files": {"old.bitproto": t_old}}, "observed_impl": str(e)[:600]})
+                continue
+            jobs = []
+            for m_new in newest.messages():
+                m_old = mp[id(m_new)]
+                for _ in range(n_values):
+                    jobs.append((m_old, m_new, G.rand_msg_value(rng, m_new)))
+            enc = drv.batch([{"op": "spec.encode", "ty": G.msg_ty_json(mn), "val": G.msg_val_json(mn, v)} for (mo, mn, v) in jobs])
+            for (m_old, m_new, v), e in zip(jobs, enc):
+                run.evaluated()
+                differs = G.msg_ty_json(m_old) != G.msg_ty_json(m_new)
+                run.count("c_pairs_with_real_evolution" if differs else "c_pairs_identical")
+                if differs:
+                    run.nontrivial(("c", shape_key(m_old), shape_key(m_new)))
+                exp = project(G.TRef(m_old), G.TRef(m_new), v)
+                data = bytes.fromhex(e["ok"])
+                got, gok = cm.decode(m_old, data)
+                if got != exp or not gok:
+                    run.violation({"kind": "impl-vs-spec", "input": {"files": {"new.bitproto": t_new, "old.bitproto": t_old},
+                                   "runtime": "C", "message_old": G.c_name(m_old), "ty_old": G.msg_ty_json(m_old),
+                                   "ty_new": G.msg_ty_json(m_new), "val": G.msg_val_json(m_new, v), "bytes": e["ok"]},
+                                   "observed_impl": {"decode": got, "struct_guards_intact": gok}, "expected_by_spec": exp})
+
+
 def check_c05(run: common.Run, drv: common.Driver, rng: random.Random, n_chains: int, n_values: int) -> None:
     replay_corpus_array_skip(run, "C05")
     opts = G.GenOpts(enum_zero_first=True)
@@ -445,6 +482,7 @@ def check_c05(run: common.Run, drv: common.Driver, rng: random.Random, n_chains:
     opts.max_bits = 1500
     for start in range(0, n_chains, 20):
         _check_c05(run, drv, rng, min(20, n_chains - start), n_values, opts)
+    check_c05_c(run, drv, rng, max(10, n_chains // 4), n_values, opts)
 
 
 def _check_c05(run, drv, rng, n_chains, n_values, opts) -> None:
